@@ -115,6 +115,17 @@ def c02_loop(ctx, max_iter, api):
         return h
     stub = TrajStub(ctx, calc._calc, height_fn)
     calc._calc._integrate = stub
+    # the calculator is not fresh: an earlier zero search on it used up its whole iteration budget and failed
+    def far_off(k, elev, x):
+        return 1e6
+    warm = TrajStub(ctx, calc._calc, far_off)
+    warm.over = lambda k: 0.5 * calc._calc.calc_step
+    calc._calc._integrate = warm
+    try:
+        calc._calc.zero_angle(shot, U.Foot(D))
+    except p.ZeroFindingError:
+        pass
+    calc._calc._integrate = stub
     stored_before = shot.weapon.zero_elevation
     raw_before = stored_before.raw_value
     try:
